@@ -109,7 +109,8 @@ def make_pdf(pages: list[dict], info: dict | None = None) -> bytes:
             cid = w.add(w.stream(b"", bytes(content)))
         if form_id:
             xobjs.append((b"Fm0", form_id))
-        res = b"<< /Font << /F1 %d 0 R >>" % font
+        # a page whose text is drawn inside a form XObject has no reason to name a font itself: the form's own resources do
+        res = b"<<" if form_id else b"<< /Font << /F1 %d 0 R >>" % font
         if xobjs:
             res += b" /XObject << " + b" ".join(b"/" + n + b" %d 0 R" % o for n, o in xobjs) + b" >>"
         res += b" >>"
@@ -214,7 +215,10 @@ def build_pdf(seed: int, feature: str | None = None, twin: bool = False):
             lines = [exp.text(tk.new("b"), p)] if twin else []
         elif feature is None and rng.random() < 0.4:
             imgs = [img() for _ in range(rng.randint(1, 3))]     # pictures on any pages, picture-free pages in between (numbers run through the document)
-        pages.append({"lines": lines, "images": imgs, "as_form": ("own" if twin else "shared") if feature == "shared-content-stream" else None})
+        as_form = ("own" if twin else "shared") if feature == "shared-content-stream" else None
+        if feature is None and not imgs and random.Random(f"pdf-form-page:{seed}:{p}").random() < 0.2:
+            as_form = "own"       # an imported / stamped page: the content stream only invokes a form XObject that holds text and font
+        pages.append({"lines": lines, "images": imgs, "as_form": as_form})
     exp.n_units = n_pages
     meta = {"Title": exp.ignore(tk.new("t")), "Author": exp.ignore(tk.new("t"))}
     return make_pdf(pages, meta), exp
